@@ -18,10 +18,10 @@ MANIFEST = {
             "table by running both on the same programs x bases (low, high, straddling 2^31/2^32/2^47/2^63) x base known at init or "
             "assigned at relocation x address table last or not; the Lean monitor decodes every absolute reference of the real "
             "relocated image (rel32, or FF /2|/4 + slot content).",
-    "note": "reloc_entry_correct proves, for every program, base and non-table entry with a 1/2/4-byte value, that a successful loop body "
-            "leaves the value word decoding to exactly the specified value; the fold over the whole entry list (per-step frame incl. the "
-            "address-table section), 8-byte values and the table form are not yet composed (the monitor evaluates them on every explored "
-            "program x base). Trusted: as C03. JitRuntime::_add (allocation + copy loop) is not modelled: the relocated section bytes and layout are "
+    "note": "reloc_correct / reloc_abs_correct / reloc_rel_correct (Props/C04E) compose the relocate_to_base fold with the ownership "
+            "invariant for every program and base (1/2/4/8-byte values, address-table rel32). Not yet proved: persistence of the slot "
+            "content to the end of the fold, the payload-to-label link of RelToAbs entries, end-to-end known_base_equiv (the monitor "
+            "evaluates them on every explored program x base). Trusted: as C03. JitRuntime::_add (allocation + copy loop) is not modelled: the relocated section bytes and layout are "
             "compared instead; executing the code is not part of the check. x86 [ABSOLUTE] memory operands without a label and the "
             "movabs heuristic are not modelled. Model follows the repaired relocate_to_base tail (fixes/C04-1).",
 }
